@@ -299,6 +299,9 @@ func (p *Program) InitPackagesFor(names []string) []*ssa.Package {
 	return out
 }
 
+// PackageClause returns the package name declared in a Go source file.
+func PackageClause(src []byte) string { return packageClause(src) }
+
 func packageClause(src []byte) string {
 	for _, line := range strings.Split(string(src), "\n") {
 		line = strings.TrimSpace(line)
